@@ -1,7 +1,7 @@
 #!/usr/bin/env python3
 """strace output -> abstract file-system operations (Base/FS.v) for C14.
 
-Input: the `strace -f -xx` log of a harness test binary, the side file the
+Input: the `strace -f` log of a harness test binary, the side file the
 harness wrote (one record per bracketed case), the traced root directory.
 Output: <out>/C14_<pkg>.cases.jsonl and .dist.json in the driver's format; the
 Coq term of a case is `Run.C14.CTrace dst keep boot-files ops ...`.
@@ -26,7 +26,7 @@ SMALL = 512
 
 
 def unescape(s):
-    """C-style escapes of strace (-xx prints \\xHH for every byte)."""
+    """C-style escapes of strace (octal, \\xHH and the usual letters)."""
     out = bytearray()
     i = 0
     while i < len(s):
@@ -454,7 +454,7 @@ def build_case(seg, rec, root):
     # where the harness knows the intended content independently, that is what
     # the published version is compared with, not what was read back
     def vlen(v):
-        return v["want_len"] if v.get("has_want") else v["len"]
+        return v.get("want_len", 0) if v.get("has_want") else v["len"]
 
     def vhex(v):
         return v.get("want_hex", "") if v.get("has_want") else v.get("hex", "")
